@@ -1,6 +1,6 @@
 CONSTANTS
   VoterSeq <- VS3
-  Others = {"p0", "x"}
+  Others = {"x"}
   Pairs = {"A"}
   EB = 2
   VP = 1
